@@ -29,10 +29,38 @@ func itemPart(s string) string {
 
 // hsmsParse calls the decoder under recover (no panic is expected to escape;
 // C07 is the property that says so, here an escape is reported by the caller).
+//
+// History device: for one input in four a frame that the decoder must refuse AFTER it has decoded part of it is
+// decoded first (a constructor refuses a later element: NaN, an 8-bit character, a wait bit on a reply; or the text
+// ends inside an element). Whatever a decoder keeps between calls must not leak from a refused frame into the next.
 func hsmsParse(b []byte) (msg ast.HSMSMessage, ok bool, o real.Outcome) {
+	head := b
+	if len(head) > 64 {
+		head = head[:64]
+	}
+	if h := rng.Hash64(head) ^ uint64(len(b)); h%4 == 0 {
+		p := hsmsPoison[(h/4)%uint64(len(hsmsPoison))]
+		real.Try(func() { hsms.Parse(append([]byte(nil), p...)) })
+	}
 	o = real.Try(func() { msg, ok = hsms.Parse(b) })
 	return
 }
+
+var hsmsPoison = func() [][]byte {
+	frame := func(b2, b3 byte, text ...byte) []byte {
+		n := 10 + len(text)
+		out := []byte{byte(n >> 24), byte(n >> 16), byte(n >> 8), byte(n), 0x00, 0x07, b2, b3, 0, 0, 0xDE, 0xAD, 0xBE, 0xEF}
+		return append(out, text...)
+	}
+	return [][]byte{
+		frame(0x81, 0x01, 0x01, 0x02, 0xA5, 0x01, 0x07, 0x91, 0x04, 0x7F, 0xC0, 0x00, 0x00),                                              // <L <U1 7> <F4 NaN>>
+		frame(0x81, 0x01, 0x01, 0x02, 0x41, 0x02, 'o', 'k', 0x41, 0x01, 0x80),                                                            // <L <A "ok"> <A 0x80>>
+		frame(0x06, 0x0B, 0x01, 0x03, 0x01, 0x01, 0x41, 0x03, 'p', 'o', 'i', 0x21, 0x01, 0xFF, 0x81, 0x08, 0x7F, 0xF0, 0, 0, 0, 0, 0, 0), // <L <L <A "poi">> <B 0xFF> <F8 +Inf>>
+		frame(0x81, 0x02, 0x01, 0x01, 0x41, 0x01, 'w'),                                                                                   // wait bit on a reply, with an item
+		frame(0x81, 0x01, 0x01, 0x02, 0xA9, 0x02, 0x12, 0x34, 0xB1, 0x04, 0x00, 0x01),                                                    // <L <U2 0x1234> <U4 ..cut>>
+		frame(0x81, 0x01, 0x01, 0x02, 0x25, 0x01, 0x01, 0x01, 0x02, 0x71, 0x04, 0, 0, 0, 9),                                              // second element: a list that declares more than is there
+	}
+}()
 
 const smlProbeText = "S99F1 W H->E probe\n<L <U1 7> <A \"probe\">> ."
 
@@ -128,6 +156,16 @@ func assignAll(g *gen.G, it *ref.Item) (map[string]ref.Val, map[string]interface
 					n += g.R.Intn(spanCap(x.AMax-x.AMin) + 1)
 				}
 				s := g.ASCII(n)
+				if g.R.Chance(1, 8) {
+					// a text that spells the variable's own name or the name of another variable of the tree
+					cand := x.AVar
+					if all := it.Vars(); len(all) > 0 && g.R.Bool() {
+						cand = all[g.R.Intn(len(all))]
+					}
+					if !ref.IsEllipsisName(cand) && len(cand) >= x.AMin && (x.AMax == -1 || len(cand) <= x.AMax) {
+						s = []byte(cand)
+					}
+				}
 				sub[x.AVar] = ref.Val{Str: s, IsS: true}
 				raw[x.AVar] = string(s)
 			}
